@@ -244,7 +244,10 @@ def f_lark(a):
     LG, cs, L = a["LG"], a["cs"], a["L"]
     with warnings.catch_warnings():
         warnings.simplefilter("ignore")
-        g = _stuff(LG).char_cfg(charset=set(cs), recursion=a.get("recursion", "right"))
+        st = _stuff(LG)
+        if a.get("other_first"):          # the same LarkStuff object was already asked for the byte-level grammar
+            st.byte_cfg(charset=set(cs))
+        g = st.char_cfg(charset=set(cs), recursion=a.get("recursion", "right"))
     texts = [p for n in range(L + 1) for p in itertools.product(cs, repeat=n)]
     acc = [[tname(c) for c in s] for s in texts if g(s) > 0]
     if len(g.N & g.V) != 0:
@@ -257,7 +260,10 @@ def f_larkbytes(a):
     LG, cs, L = a["LG"], a["cs"], a["L"]
     with warnings.catch_warnings():
         warnings.simplefilter("ignore")
-        g = _stuff(LG).byte_cfg(charset=set(cs))
+        st = _stuff(LG)
+        if a.get("other_first"):          # the same LarkStuff object was already asked for the character-level grammar
+            st.char_cfg(charset=set(cs))
+        g = st.byte_cfg(charset=set(cs))
     bvals = sorted({b for c in cs for b in c.encode("utf-8")})
     cands = [p for n in range(L + 1) for p in itertools.product(bvals, repeat=n)]
     bacc = [list(bs) for bs in cands if g(bs) > 0]
